@@ -1,6 +1,7 @@
 import AikenVerif.Lemmas.MatchCheck
 import AikenVerif.Lemmas.MatchTree
 import AikenVerif.Lemmas.ListSwitch
+import AikenVerif.Lemmas.MatchPanic
 /-!
 # C07 — Pattern matching is exhaustive when accepted and first-match when run
 
@@ -186,6 +187,40 @@ theorem check_notExhaustive_sound {sg : Sig} {inh : List Val} {t : Ty} (cs : Lis
     rw [e, mem_flatten_of_length (missing_width _)] at hq
     exact (rowsOf_unmatched cs x).mp (missing_are_unmatched hlf hq x hx)
 
+/-! ## the checker's partial operations are never reached on well-typed input
+
+`Model/MatchPanic.lean` keeps the Rust's `unreachable!("constructors and literals should never
+align …")` and `self.0[0]` on an empty row as the outcome `Out.panic`. -/
+
+/-- `Matrix::is_useful` neither panics nor diverges on a well-typed matrix and vector: for every
+large enough fuel the panic-aware model returns `ok` with the value of `isUseful` -/
+theorem useful_never_panics {sg : Sig} {M : Matrix} {v : Row} {ts : List Ty}
+    (hs : Sig.ok sg = true) (hM : Matrix.hasTy sg M ts = true) (hv : Pat.hasTyL sg v ts = true) :
+    ∃ n, ∀ fuel, n ≤ fuel → isUsefulX fuel M v = .ok (isUseful M v) :=
+  isUsefulX_ok hs M v ts hM hv
+
+/-- the partial operations of `collect_missing_patterns` on a well-typed matrix: every row has a
+head (`collect_ctors`), specialising by a constructor never meets a literal or an empty row;
+both properties are inherited by the specialised matrices (`specCtor_hasTy`, `specWild_hasTy`) -/
+theorem specialize_never_panics {sg : Sig} {M : Matrix} {t : Nat} {ts : List Ty} (c a : Nat)
+    (hM : Matrix.hasTy sg M (.data t :: ts) = true) :
+    allNonEmpty M = true ∧ filterMapX (specRowCtorX c a) M = .ok (specCtor c a M) :=
+  ⟨allNonEmpty_of_hasTy hM, filterMapX_ctor_ok c a hM⟩
+
+/-- `recover_ctor`'s `split_off(arity)` is within bounds: the rows it is applied to have
+`arity + n - 1 ≥ arity` patterns (for `n ≥ 1`) -/
+theorem recover_ctor_split_ok (M : Matrix) (arity n : Nat) (hn : n ≠ 0) :
+    ∀ r ∈ collectMissing M (arity + n - 1), arity ≤ r.length := by
+  intro r hr
+  have := collectMissing_length M (arity + n - 1) r hr
+  omega
+
+/-- `Pattern::pretty` never meets a literal (`unreachable!("maybe never happens?")`): no reported
+missing pattern contains one, whatever the matrix -/
+theorem pretty_never_sees_literal (M : Matrix) (n : Nat) :
+    ∀ r ∈ collectMissing M n, Pat.litFreeL r = true :=
+  collectMissing_litFree M n
+
 /-! ## run time: first match, bindings, decision trees -/
 
 /-- `firstMatch` picks a matching clause and none before it matches -/
@@ -270,6 +305,13 @@ theorem accepted_firstMatch_total {sg : Sig} {inh : List Val} {t : Ty} (cs : Lis
 /-- a source pattern binds variables exactly when its simplified matrix pattern matches -/
 theorem bind_iff_matches (p : SPat) (v : Val) : (bind p v).isSome = pmatch (simplify p) v :=
   bind_isSome p v
+
+/-- "each pattern variable is bound to the corresponding sub-value": the value bound to a variable
+is the sub-value of the scrutinee at the variable's occurrence path (the `Assigned { path }` of
+decision_tree.rs: argument indexes from the root), in binding order -/
+theorem bindings_are_subvalues (p : SPat) (x : Val) (bs : List (Nat × Val)) (h : bind p x = some bs) :
+    (varPaths p []).map (fun xp => (xp.1, subAt xp.2 x)) = bs.map (fun b => (b.1, some b.2)) :=
+  bind_paths p x x [] bs rfl h
 
 /-- the clause chosen with bindings is the first clause whose simplified pattern matches -/
 theorem firstBind_is_firstMatch (cs : List SPat) (x : Val) :
